@@ -14,3 +14,12 @@ for fn in sorted(files):
 json.dump({"_head": subprocess.run(["git", "-C", "/repo", "rev-parse", "HEAD"], stdout=subprocess.PIPE, text=True).stdout.strip(), **pins},
           open(os.path.join(V, "tools", "srcpins.json"), "w"), indent=1)
 print(len(pins), "files pinned")
+# pinned copy of the generated Lean files (fallback driver build, checklib.build_fallback_driver); run AFTER tools/rs2lean.py
+import shutil
+gp = os.path.join(V, "tools", "gen_pinned")
+shutil.rmtree(gp, ignore_errors=True)
+os.makedirs(gp)
+for fn in sorted(os.listdir(os.path.join(V, "lean", "TF", "Gen"))):
+    if fn.endswith(".lean"):
+        shutil.copy2(os.path.join(V, "lean", "TF", "Gen", fn), os.path.join(gp, fn))
+print("generated files pinned:", sorted(os.listdir(gp)))
